@@ -17,7 +17,7 @@ from .machine import (Machine, Domain, Encoder, AV, A_bool, A_int, A_const, NONE
 NN = 2      # names in the universe (both match the prefix used by remove(prefix=...))
 NU = 2      # uri tokens
 NM = 2      # metadata tokens
-OPS = ["register_safe", "register_unsafe", "remove_name", "remove_prefix", "set_metadata", "lookup"]
+OPS = ["register_safe", "register_unsafe", "remove_name", "remove_prefix", "set_metadata", "lookup", "lookup_meta"]
 EXC = {"KeyError": 2, "NamingError": 3, "TypeError": 4, "ValueError": 5}
 
 
@@ -27,17 +27,21 @@ def build(T, ops=None):
     dom.classes = {
         "NS": {"n": 1, "fields": {"lock": ("lock", True), "storage": ("obj", "Storage")}},
         "Storage": {"n": 1, "fields": {}},
+        "DictBase": {"n": 1, "fields": {}},
         "Name": {"n": NN, "fields": {}},
         "Uri": {"n": NU, "fields": {}},
         "Meta": {"n": NM, "fields": {}},
     }
     dom.exc_parents = {"NamingError": (), "KeyError": (), "TypeError": (), "ValueError": ()}
-    dom.consts = {"core.URI": A_const("type:URI"), "str": A_const("type:str"), "core.NAMESERVER_NAME": A_const("Pyro.NameServer")}
+    dom.consts = {"core.URI": A_const("type:URI"), "str": A_const("type:str"), "MemoryStorage": A_const("type:MemoryStorage"), "core.NAMESERVER_NAME": A_const("Pyro.NameServer")}
     dom.local_types = {"uri": ("ref", "Uri"), "metadata": ("ref", "Meta"), "old_meta": ("ref", "Meta"), "name": ("ref", "Name"),
                        "items": ("set", "Name"), "item": ("ref", "Name"), "__self": ("ref", "Name")}
     for name in ("register", "remove", "set_metadata", "lookup"):
         dom.inline[("NS", name)] = load_method(nameserver.NameServer, name)
     dom.inline[("Storage", "remove_items")] = load_method(nameserver.MemoryStorage, "remove_items")
+    if "__setitem__" in nameserver.MemoryStorage.__dict__:
+        # the storage's own __setitem__ is read from the source; what it does with the underlying dict are atomic steps
+        dom.inline[("Storage", "__setitem__")] = load_method(nameserver.MemoryStorage, "__setitem__")
 
     dom.pyclasses = {"NS": nameserver.NameServer, "Storage": nameserver.MemoryStorage}
 
@@ -108,10 +112,27 @@ def build(T, ops=None):
         ctx.exc.append((z3.Not(z3.And(valid(n.term), sel("present[%d]", n.term, ctx))), "KeyError"))
         put("present[%d]", n.term, z3.BoolVal(False), ctx)
         return NONE
+    def st_pop(ev, ctx, recv, args):
+        n = args[0]
+        need_ref(n)
+        if len(args) < 2:
+            ctx.exc.append((z3.Not(z3.And(valid(n.term), sel("present[%d]", n.term, ctx))), "KeyError"))
+        put("present[%d]", n.term, z3.BoolVal(False), ctx)
+        return NONE
     dom.methods[("Storage", "__contains__")] = st_contains
     dom.methods[("Storage", "__getitem__")] = st_getitem
-    dom.methods[("Storage", "__setitem__")] = st_setitem
+    if ("Storage", "__setitem__") not in dom.inline:
+        dom.methods[("Storage", "__setitem__")] = st_setitem
     dom.methods[("Storage", "__delitem__")] = st_delitem
+    dom.methods[("Storage", "pop")] = st_pop
+    # super(MemoryStorage, self): the plain dict underneath
+    dom.functions["super"] = lambda ev, ctx, args: AV("obj", None, "DictBase")
+    dom.functions["frozenset"] = lambda ev, ctx, args: args[0] if args else A_const("emptyset")
+    dom.methods[("DictBase", "__setitem__")] = st_setitem
+    dom.methods[("DictBase", "__delitem__")] = st_delitem
+    dom.methods[("DictBase", "__getitem__")] = st_getitem
+    dom.methods[("DictBase", "__contains__")] = st_contains
+    dom.methods[("DictBase", "pop")] = st_pop
 
     def ns_list(ev, ctx, recv, args):
         """NameServer.list(prefix=P): runs entirely under self.lock -> one atomic step once the lock is free"""
@@ -160,7 +181,8 @@ def build(T, ops=None):
         end = m.add_node(t, "end", ast.Pass(), top, "harness.client")
         res_uri = m.local_key_typed(t, top, "res_uri", ("ref", "Uri"))
         res_int = m.local_key_typed(t, top, "res_int", ("int", None))
-        t.res_uri, t.res_int = res_uri, res_int
+        res_pair = m.local_key_typed(t, top, "res_pair", ("tuple", [("ref", "Uri"), ("ref", "Meta")]))
+        t.res_uri, t.res_int, t.res_pair = res_uri, res_int, res_pair
 
         def argname(ctx, ti=ti):
             return ctx.get("argname[%d]" % ti)
@@ -178,6 +200,8 @@ def build(T, ops=None):
                 return m.build_call(t, "NS", "remove", ns, [NONE, A_const("prefix")], end.idx, top, retkey=res_int)
             if opname == "set_metadata":
                 return m.build_call(t, "NS", "set_metadata", ns, [name_av, meta_av], end.idx, top)
+            if opname == "lookup_meta":
+                return m.build_call(t, "NS", "lookup", ns, [name_av, A_bool(True)], end.idx, top, retkey=res_pair)
             return m.build_call(t, "NS", "lookup", ns, [name_av], end.idx, top, retkey=res_uri)
         if ops is not None:
             nxt = entry_for(ops[ti])
@@ -219,14 +243,16 @@ def ref_apply(state, op, name, uri, meta):
         new_uri.append(z3.If(z3.And(reg_ok, me), uri, uris[i]))
         mset = z3.Or(z3.And(reg_ok, me), z3.And(is_("set_metadata"), me, here))
         new_meta.append(z3.If(mset, meta, metas[i]))
-    outcome = z3.If(z3.Or(z3.And(is_("register_safe"), here), z3.And(is_("set_metadata"), z3.Not(here)), z3.And(is_("lookup"), z3.Not(here))),
+    outcome = z3.If(z3.Or(z3.And(is_("register_safe"), here), z3.And(is_("set_metadata"), z3.Not(here)),
+                          z3.And(z3.Or(is_("lookup"), is_("lookup_meta")), z3.Not(here))),
                     bv(EXC["NamingError"]), bv(1))
     cnt = bv(0)
     for i in range(NN):
         cnt = cnt + z3.If(present[i], bv(1), bv(0))
     res_int = z3.If(is_("remove_name"), z3.If(here, bv(1), bv(0)), z3.If(is_("remove_prefix"), cnt, bv(0)))
-    res_uri = z3.If(z3.And(is_("lookup"), here), at(uris), bv(NU))
-    return (new_present, new_uri, new_meta), outcome, res_int, res_uri
+    res_uri = z3.If(z3.And(z3.Or(is_("lookup"), is_("lookup_meta")), here), at(uris), bv(NU))
+    res_meta = z3.If(z3.And(is_("lookup_meta"), here), at(metas), bv(NM))
+    return (new_present, new_uri, new_meta), outcome, res_int, (res_uri, res_meta)
 
 
 def check(T=2, K=30, timeout_s=600, forbid_remove=False, only_ops=None, ops=None):
@@ -271,7 +297,9 @@ def check(T=2, K=30, timeout_s=600, forbid_remove=False, only_ops=None, ops=None
             th = m.threads[t]
             conj.append(final["client%d.outcome" % t] == oc)
             conj.append(z3.Implies(oc == bv(1), z3.And(final[th.res_int] == ri,
-                                                       z3.Implies(s0["op[%d]" % t] == bv(OPS.index("lookup")), final[th.res_uri] == ru))))
+                                                       z3.Implies(s0["op[%d]" % t] == bv(OPS.index("lookup")), final[th.res_uri] == ru[0]),
+                                                       z3.Implies(s0["op[%d]" % t] == bv(OPS.index("lookup_meta")),
+                                                                  z3.And(final[th.res_pair + "#0"] == ru[0], final[th.res_pair + "#1"] == ru[1])))))
         for i in range(NN):
             conj.append(final["present[%d]" % i] == stt[0][i])
             conj.append(z3.Implies(stt[0][i], z3.And(final["uri[%d]" % i] == stt[1][i], final["meta[%d]" % i] == stt[2][i])))
@@ -362,6 +390,10 @@ def _ref_run(order, ops, init):
                     raise NamingError("x")
                 d[name] = (d[name][0], set(METAS[mm] or ()))
                 res[t] = ("ok", None)
+            elif op == "lookup_meta":
+                if name not in d:
+                    raise NamingError("x")
+                res[t] = ("ok", (d[name][0], sorted(d[name][1])))
             else:
                 if name not in d:
                     raise NamingError("x")
@@ -377,8 +409,14 @@ def replay(T, ops, init, schedule, model_lines):
     import itertools as it
     from Pyro5 import nameserver as NSM
     from .replay_pool import Gate
-    codes = {NSM.NameServer.__dict__[n].__code__ for n in ("register", "remove", "set_metadata", "lookup")}
-    codes.add(NSM.MemoryStorage.__dict__["remove_items"].__code__)
+    # every python-level method of the name server and of its in-memory storage is gated line by line
+    codes = set()
+    for klass in (NSM.NameServer, NSM.MemoryStorage):
+        for f in klass.__dict__.values():
+            if isinstance(f, (staticmethod, classmethod)):
+                f = f.__func__
+            if hasattr(f, "__code__") and getattr(f, "__name__", "") not in ("__init__", "list", "count", "yplookup", "everything", "close"):
+                codes.add(f.__code__)
     gate = Gate(codes)
     ns = NSM.NameServer()
     for i, (p, u, mm) in enumerate(init):
@@ -401,6 +439,9 @@ def replay(T, ops, init, schedule, model_lines):
                 results[t] = ("ok", ns.remove(prefix="a"))
             elif op == "set_metadata":
                 results[t] = ("ok", ns.set_metadata(name, METAS[mm] or []))
+            elif op == "lookup_meta":
+                u_, m_ = ns.lookup(name, return_metadata=True)
+                results[t] = ("ok", (str(u_), sorted(m_)))
             else:
                 results[t] = ("ok", str(ns.lookup(name)))
         except Exception as x:
